@@ -462,18 +462,23 @@ class StreamClient:
             raise exceptions.ProtocolError("an error occurred during streaming") from ex
         finally:
             self._packet_backlog.clear()  # Don't keep old packets around (big!)
-            if transport:
-                # TODO: Teardown should not be done here. In fact, nothing should be
-                # closed here since the connection should be reusable for streaming
-                # more audio files. Refactor when support for that is added.
-                await self.rtsp.teardown(self.context.rtsp_session)
-                transport.close()
-            self._protocol.teardown()
-            self.close()
+            try:
+                if transport:
+                    # TODO: Teardown should not be done here. In fact, nothing should be
+                    # closed here since the connection should be reusable for streaming
+                    # more audio files. Refactor when support for that is added.
+                    await self.rtsp.teardown(self.context.rtsp_session)
+            finally:
+                # Local resources must be released also if teardown fails (e.g.
+                # because the device stopped responding) or is cancelled
+                if transport:
+                    transport.close()
+                self._protocol.teardown()
+                self.close()
 
-            listener = self.listener
-            if listener:
-                listener.stopped()
+                listener = self.listener
+                if listener:
+                    listener.stopped()
 
     async def _stream_data(  # pylint: disable=too-many-locals
         self, source: AudioSource, transport
